@@ -257,7 +257,15 @@ static void writeLine(std::ostream& os, Rng& rng, Position pos, const TNode& n, 
     if (n.children.empty()) return;
     const TNode& main = n.children[0];
     auto writeMove = [&](const TNode& c) {
-        if (!c.pre.empty()) os << "{" << escComment(c.pre) << "} ";
+        if (!c.pre.empty()) {
+            std::string t = escComment(c.pre);
+            if (t.size() >= 2 && rng.chance(35)) {
+                size_t k = 1 + rng.below((int)t.size() - 1);
+                os << "{" << t.substr(0, k) << "}{" << t.substr(k) << "} ";
+            } else {
+                os << "{" << t << "} ";
+            }
+        }
         if (pos.isWhiteMove()) os << pos.getFullMoveCounter() << ". ";
         else if (rng.chance(50)) os << pos.getFullMoveCounter() << "... ";
         std::string ms = TextIO::moveToString(pos, c.move, longForm);
@@ -268,7 +276,19 @@ static void writeLine(std::ostream& os, Rng& rng, Position pos, const TNode& n, 
         os << ' ';
         bool nagFirst = rng.chance(50);
         if (c.nag > 0 && !glyph && nagFirst) os << '$' << c.nag << ' ';
-        if (!c.post.empty()) os << "{" << escComment(c.post) << "} ";
+        if (!c.post.empty()) {
+            // the parser concatenates all comments that follow a move: write some of them in two pieces,
+            // some as a rest-of-line comment
+            std::string t = escComment(c.post);
+            if (t.size() >= 2 && rng.chance(35)) {
+                size_t k = 1 + rng.below((int)t.size() - 1);
+                os << "{" << t.substr(0, k) << "} {" << t.substr(k) << "} ";
+            } else if (t.find('\n') == std::string::npos && t.find('\r') == std::string::npos && rng.chance(25)) {
+                os << ";" << t << "\n";
+            } else {
+                os << "{" << t << "} ";
+            }
+        }
         if (c.nag > 0 && !glyph && !nagFirst) os << '$' << c.nag << ' ';
     };
     writeMove(main);
